@@ -79,9 +79,14 @@ class Sym:
         if k == "BinaryOperator":
             op = n["opcode"]
             a, b = kids(n)
-            names = {"*": "mul", "+": "add", "^": "xor", "|": "or", "<<": "shl", ">>": "shr", "-": "sub"}
+            names = {"*": "mul", "+": "add", "^": "xor", "|": "or", "&": "and", "<<": "shl", ">>": "shr", "-": "sub"}
             if op not in names:
                 raise NoFit("operator " + op)
+            if op == "-":
+                # a constant shift count such as `64 - 1` (int arithmetic on literals): folded
+                la, lb = strip(a), strip(b)
+                if la.get("kind") == "IntegerLiteral" and lb.get("kind") == "IntegerLiteral" and int(la["value"]) >= int(lb["value"]):
+                    return lit(int(la["value"]) - int(lb["value"]))
             if width(n) != (64, False):
                 raise NoFit("arithmetic not in uint64_t")
             ea, eb = self.ex(a, env), self.ex(b, env)
